@@ -24,6 +24,8 @@ def Start.it (x : Start) : It :=
 inductive HOp
   | start (x : Start)
   | cont
+  | reuse (x : Start)             -- start a scan of other data with the SAME iterator object re-pointed by the caller: its
+                                  -- `last_error` is whatever the previous scan left there (not reset)
   | config (set : Settings)       -- yr_scanner_set_flags / set_timeout / set_callback: any new settings
   | proc (mem : Option Start)     -- yr_scanner_scan_proc: `none` = the process cannot be attached; otherwise the iterator over
                                   -- its memory (any blocks, any behaviour) and the callback's reactions
@@ -53,6 +55,9 @@ def stepH (P : Params) (v : Variant) (st : HSt) : HOp → HSt × Option Trace
       let o := scanCall P v st.cb st.stack st.sc st.it st.w
       (st.after o st.cb st.stack, some (o.msgs, o.rc))
     else (st, none)
+  | .reuse x =>
+    let o := scanCall P v x.cb x.stack st.sc { x.it with lastError := st.it.lastError } { st.w with nmsg := 0 }
+    (st.after o x.cb x.stack, some (o.msgs, o.rc))
   | .config set => ({ st with sc := { st.sc with set := set } }, none)
   | .proc none => (st, some ([], .couldNotAttach))
   | .proc (some x) =>
